@@ -11,7 +11,11 @@ shift 2; [ "${1:-}" = "--" ] && shift
 D=$(mktemp -d /tmp/utap-tree.XXXXXX)
 git -C /repo worktree add -q --detach "$D" "$REV" || exit 2
 if [ "$PATCH" != "-" ]; then PATCH=$(readlink -f "$PATCH"); git -C "$D" apply "$PATCH" || { git -C /repo worktree remove --force "$D"; exit 2; }; fi
-UTAPV_REPO="$D" "$@"
+# evidence and replay files of a run against a scratch tree never go to /verif/evidence (KEEP_OUT=1 keeps them for inspection)
+OUT=${UTAPV_OUT_DIR:-$D.out}
+mkdir -p "$OUT"
+UTAPV_REPO="$D" UTAPV_OUT_DIR="$OUT" "$@"
 rc=$?
 git -C /repo worktree remove --force "$D"
+[ "${KEEP_OUT:-0}" = "1" ] && echo "output kept in $OUT" || rm -rf "$D.out"
 exit $rc
